@@ -5,6 +5,7 @@ CONSTANTS Libs = {1,2}
   Flags = {"local","global"}
   Mode = "inline"
   Variant = "faithful"
+VIEW View
 PROPERTY ISpec
 PROPERTY ClosedForever
 INVARIANT NeverDies
